@@ -155,6 +155,16 @@ Definition wl_py (ws : list ws_entry) (c from to : str) : option (nat * nat * bo
   | None => None
   end.
 
+Definition wl_go (ws : list ws_entry) (c from to : str) : option (nat * nat * bool * bool) :=
+  match wl_crate ws c with
+  | Some (arrivals, pd) =>
+    match go_generate_multi uc_exec (Proofs.C09Witness.w_go []) [] pd, go_multi_decls uc_exec (Proofs.C09Witness.w_go []) [] pd with
+    | Ok _, Ok (ds, _) => Some (wl_verdict Go [] arrivals c (flat_map go_obs ds) from to)
+    | _, _ => None
+    end
+  | None => None
+  end.
+
 (* a/src/lib.rs: #[typeshare] #[serde(rename = "AlR")] type Al = u32;  my-crate/src/lib.rs: use a::Al; #[typeshare] struct B1 { f: Al }:
    the own-crate findings about definitions carry over to folder mode - Kotlin and Scala declare the alias under its
    RUST name while my_crate refers to (and imports) AlR *)
@@ -173,6 +183,14 @@ Example sw_sc_py_multi_nonvacuous :
   wl_sc ws_rich MY (lit "E") (lit "E2") = Some (5, 16, true, false)%nat /\
   wl_py ws_rich MY (lit "A2Renamed") (lit "A2") = Some (5, 12, true, false)%nat /\
   wl_py ws_rich MY (lit "EVInner") (lit "EV") = Some (5, 12, true, false)%nat.
+Proof. repeat split; vm_compute; reflexivity. Qed.
+
+(* Go, empty acronym list, on ws_rich: in no class; the file of my_crate is good (5 definitions, 12 references); the
+   Rust name of a's A2 and a misnamed helper struct are rejected *)
+Example go_multi_nonvacuous :
+  wl_dom Go [] ws_rich = Some (true, None) /\
+  wl_go ws_rich MY (lit "A2Renamed") (lit "A2") = Some (5, 12, true, false)%nat /\
+  wl_go ws_rich MY (lit "EVInner") (lit "EV") = Some (5, 12, true, false)%nat.
 Proof. repeat split; vm_compute; reflexivity. Qed.
 
 (* the own-crate classes of definitions in folder mode: a serde-renamed alias of crate a, referred to from my_crate *)
